@@ -455,6 +455,7 @@ CONSTANTS
   PhaseOn = {%(on)s}
   AllowCtrlC = TRUE
   MaxNFE = 20
+  AllowInvalid = TRUE
 INVARIANT Report
 CHECK_DEADLOCK FALSE
 """
@@ -471,6 +472,8 @@ def unit_trace_lines(run: dict) -> "list[dict] | str":
         return "crash-or-hang"
     if hdr.get("rateL"):
         return "rate-limited"
+    if (run["desc"].get("fault") or {}).get("site") == "unit.worker.case":
+        return "fault-at-the-case-hook"      # raised outside the test function's own try block, before its stop check: not a step of the model
     out = []
     blank = {"e": "", "k": "", "st": "", "w": 0, "op": 0, "ph": 0, "fails": 0, "limit": False, "site": ""}
     thr_of: dict = {}
@@ -481,14 +484,14 @@ def unit_trace_lines(run: dict) -> "list[dict] | str":
             phase = ln["ph"]
             thr_of = {}          # every unit phase starts its own worker threads
         w = 0
-        if e in ("QPUT", "SEND", "WEXIT", "FAULT") and ln.get("thr"):
+        if e in ("QPUT", "SEND", "CASE", "WEXIT", "FAULT") and ln.get("thr"):
             w = thr_of.setdefault(ln["thr"], len(thr_of) + 1)
             if w > hdr["workers"]:
                 return "more-threads-than-workers"
         if e == "QPUT":
             out.append(dict(blank, e="Q", k=ln["k"], st=ln["st"], w=w, op=ln["op"]))
-        elif e == "SEND":
-            out.append(dict(blank, e="SEND", w=w, op=ln["op"]))
+        elif e in ("SEND", "CASE"):
+            out.append(dict(blank, e=e, w=w, op=ln["op"]))
         elif e == "WEXIT":
             out.append(dict(blank, e="WEXIT", w=w))
         elif e == "FAULT":
